@@ -155,6 +155,20 @@ def dumpStats (o : Obj) : String :=
 def outcomeStr : FileSeq.Outcome → String
   | .ended => "ended" | .openException => "openexc" | .hang => "hang" | .oob => "oob"
 
+/-- the object parser stopped (exception, undecodable object) before the end of the uncompressed stream: in the implementation the
+    application then closes the file while the inflater may still be counting containers, so `currentUncompressedFileSize`
+    depends on the schedule (anything up to the model's value) -/
+def readEarly (Z : FileSeq.Zlib) (cap : Nat) (file : Bytes) : Bool :=
+  let s1 := (Stmt.rd 0 4).exec (FileSeq.stickyCfg cap) { obj := FileSeq.statsDefault, inp := file }
+  if s1.obj.num 0 ≠ FileSeq.FILESIG then false else
+  let s2 := FileSeq.statsReadRest.exec (FileSeq.stickyCfg cap) s1
+  let cs := FileSeq.containerLoop Z cap (file.length + 2) { st := s2, usize := s2.obj.num 1 }
+  match FileSeq.flattenConts cs.conts.reverse with
+  | none => false
+  | some B =>
+    let ps := FileSeq.objectLoop cap (4 * B.length + 64) { st := { obj := FileSeq.statsDefault, inp := B } }
+    decide (ps.st.pos < B.length)
+
 def handleFile (cfg : Cfg) (toks : List String) : String :=
   match toks with
   | "readfile" :: h :: rest =>
@@ -163,7 +177,8 @@ def handleFile (cfg : Cfg) (toks : List String) : String :=
       let r := FileSeq.readFile (mkZlib rest) cfg.cap file
       "readfile outcome=" ++ outcomeStr r.outcome ++
         (if r.outcome == .openException then "" else
-         " count=" ++ toString r.objectCount ++ " usize=" ++ toString r.uncompressedSize ++ " n=" ++ toString r.objs.length ++
+         " count=" ++ toString r.objectCount ++ " usize=" ++ toString r.uncompressedSize ++
+         (if readEarly (mkZlib rest) cfg.cap file then " early=1" else "") ++ " n=" ++ toString r.objs.length ++
          (if r.outcome == .ended then
             " stats " ++ dumpStats r.stats ++
             String.join (r.objs.map fun p => " | " ++ p.1 ++ " " ++
